@@ -1,12 +1,13 @@
 (* C04, Stage C: n exchanges of the wire grammar delivered as ANY legal interleaving of request chunks and response chunks give n
-   transactions; the i-th reports request i and carries response i.  "Legal" is a computable boolean over the operation list. *)
+   transactions; the i-th reports request i and carries response i.  "Legal" (pk_blegal) is a computable boolean over the operation
+   list: no byte of response i is offered before the last byte of request i has been offered. *)
 Require Import Htp.Model.Base Htp.Model.MBstr Htp.Model.MConnTypes Htp.Model.MTxCommon Htp.Model.MReqLine Htp.Model.MReqUri Htp.Model.MTxReq Htp.Model.MResLine Htp.Model.MTxRes.
 Require Import Htp.Model.MReq Htp.Model.MRes Htp.Model.MConnp.
 Require Import Htp.Spec.SWire Htp.Proof.PWire Htp.Proof.PWireHdr Htp.Proof.PWireBlock Htp.Proof.PWireConn Htp.Proof.PWireExch.
 Require Import Htp.Proof.PWireRun Htp.Proof.PWirePres Htp.Proof.PWireGlue Htp.Proof.PSeg Htp.Proof.PSegLine Htp.Proof.PSegHdr Htp.Proof.PSegGen Htp.Proof.PSegRun.
 Require Import Htp.Proof.PSegFold Htp.Proof.PSegPipe Htp.Proof.PSegRes Htp.Proof.PSegResLine Htp.Proof.PSegResHdr Htp.Proof.PSegResGen Htp.Proof.PSegResRun Htp.Proof.PSegResReq Htp.Proof.PSegResThm Htp.Proof.PSegResCanon.
 Require Import Htp.Proof.PPairA Htp.Proof.PPairB Htp.Proof.PPairReq Htp.Proof.PPairThm Htp.Proof.PPairThmB Htp.Proof.PPairCq Htp.Proof.PPairCr.
-Require Import Htp.Proof.PPairC1 Htp.Proof.PPairC5 Htp.Proof.PPairC7 Htp.Proof.PPairC8 Htp.Proof.PPairC9 Htp.Proof.PPairCa.
+Require Import Htp.Proof.PPairC1 Htp.Proof.PPairC5 Htp.Proof.PPairC7 Htp.Proof.PPairC8 Htp.Proof.PPairC9 Htp.Proof.PPairCa Htp.Proof.PPairCs Htp.Proof.PPairCt Htp.Proof.PPairCu Htp.Proof.PPairCv.
 
 (* ================= the history ================= *)
 Definition pk_nonnil (x : bytes) : bool := match x with [] => false | _ => true end.
@@ -17,9 +18,9 @@ Definition pk_data_ok (ops : list cp_op) : bool :=
 Fixpoint pk_reqs (ops : list cp_op) : list bytes := match ops with [] => [] | OpReqData x :: r => x :: pk_reqs r | _ :: r => pk_reqs r end.
 Fixpoint pk_ress (ops : list cp_op) : list bytes := match ops with [] => [] | OpResData y :: r => y :: pk_ress r | _ :: r => pk_ress r end.
 
-(* legality: m = the number of requests known to be parser-complete (PPairCa.pk_ready, the maximum over the request calls so far),
-   qn / sn = the number of request / response bytes still to come.  A response chunk must lie within the responses to the first m
-   requests. *)
+(* a stricter notion, used for the sequential histories: m = the number of requests known to be parser-complete (PPairCa.pk_ready, the
+   maximum over the request calls so far), qn / sn = the number of request / response bytes still to come.  A response chunk must
+   lie within the responses to the first m requests. *)
 Fixpoint pk_legal_from (xl : list pp_xc) (m qn sn : nat) (ops : list cp_op) : bool :=
   match ops with
   | [] => true
@@ -29,9 +30,8 @@ Fixpoint pk_legal_from (xl : list pp_xc) (m qn sn : nat) (ops : list cp_op) : bo
   end.
 Definition pk_legal (xl : list pp_xc) (ops : list cp_op) : bool := pk_legal_from xl 0 (length (pp_ex_qwire xl)) (length (pp_ex_swire xl)) ops.
 
-(* byte-legality, for comparison: no byte of response i before the last byte of request i has been offered *)
-Fixpoint pk_offered (xl : list pp_xc) (n : nat) : nat :=
-  match xl with [] => 0 | x :: xl' => if (n <=? length (pp_ex_qwire xl'))%nat then S (pk_offered xl' n) else 0 end.
+(* LEGALITY: no byte of response i before the last byte of request i has been offered (PPairCa.pk_offered = the number of requests
+   offered completely when qn request bytes are still to come) *)
 Fixpoint pk_blegal_from (xl : list pp_xc) (qn sn : nat) (ops : list cp_op) : bool :=
   match ops with
   | [] => true
@@ -101,38 +101,37 @@ Proof.
 Qed.
 
 (* ---- every operation of a legal history ---- *)
-Lemma pk_run : forall ops a m c qrw srw, pk_inv g xl a c qrw srw -> (m <= a)%nat ->
+Lemma pk_run : forall ops a c qrw srw, pk_inv2 g xl a c qrw srw ->
   pk_data_ok ops = true -> concat (pk_reqs ops) = qrw -> concat (pk_ress ops) = srw ->
-  pk_legal_from xl m (length qrw) (length srw) ops = true -> pp_f1_free xl (pk_ress ops) = true ->
-  exists a', pk_inv g xl a' (fst (cp_run cb g c ops)) [] [].
+  pk_blegal_from xl (length qrw) (length srw) ops = true -> pp_f1_free xl (pk_ress ops) = true ->
+  exists a', pk_inv2 g xl a' (fst (cp_run cb g c ops)) [] [].
 Proof.
-  induction ops as [|o ops IH]; intros a m c qrw srw Hinv Hm Hd Hq Hs Hl Hf1.
+  induction ops as [|o ops IH]; intros a c qrw srw Hinv Hd Hq Hs Hl Hf1.
   - cbn [pk_reqs pk_ress concat] in Hq, Hs. subst qrw srw. exists a. exact Hinv.
   - cbn [pk_data_ok forallb] in Hd. apply andb_prop in Hd. destruct Hd as [Hd1 Hd]. fold (pk_data_ok ops) in Hd.
     destruct o as [|x|y| | | | | |]; try discriminate.
     + (* htp_connp_req_data *)
-      cbn [pk_reqs pk_ress concat] in Hq, Hs, Hf1. cbn [pk_legal_from] in Hl.
+      cbn [pk_reqs pk_ress concat] in Hq, Hs, Hf1. cbn [pk_blegal_from] in Hl.
       assert (Hne : x <> []) by (destruct x; [discriminate|intro; discriminate]).
-      destruct (pk_qstep cb g Hcb Hsp Had xl Hokx Hmax a c qrw x (concat (pk_reqs ops)) srw Hinv Hne (eq_sym Hq)) as (a' & La & Hinv').
+      destruct (pk_qstep2 cb g Hcb Hsp Had xl Hokx Hnoexp Hmax a c qrw x (concat (pk_reqs ops)) srw Hinv Hne (eq_sym Hq)) as (a' & La & Hinv').
       rewrite pk_run_cons_q.
       assert (El : (length qrw - length x)%nat = length (concat (pk_reqs ops))) by (rewrite <- Hq, app_length; lia).
       rewrite El in Hl.
-      apply (IH a' (Nat.max m (pk_ready xl (length (concat (pk_reqs ops))))) _ _ srw Hinv'); [|exact Hd|reflexivity|exact Hs|exact Hl|exact Hf1].
-      pose proof (pk_inv_ready g xl _ _ _ _ Hinv'). lia.
+      apply (IH a' _ _ srw Hinv' Hd eq_refl Hs Hl Hf1).
     + (* htp_connp_res_data *)
-      cbn [pk_reqs pk_ress concat] in Hq, Hs. cbn [pk_ress pp_f1_free] in Hf1. cbn [pk_legal_from] in Hl.
+      cbn [pk_reqs pk_ress concat] in Hq, Hs. cbn [pk_ress pp_f1_free] in Hf1. cbn [pk_blegal_from] in Hl.
       apply andb_prop in Hl. destruct Hl as [Hl1 Hl]. apply andb_prop in Hf1. destruct Hf1 as [Hf1 Hf1r]. apply Nat.leb_le in Hl1.
       assert (Hne : y <> []) by (destruct y; [discriminate|intro; discriminate]).
       assert (El : (length srw - length y)%nat = length (concat (pk_ress ops))) by (rewrite <- Hs, app_length; lia).
-      assert (Hlen : (length (pp_ex_swire (skipn a xl)) <= length (concat (pk_ress ops)))%nat).
-      { pose proof (pk_stail_mono xl m a Hm). rewrite <- Hs, app_length in Hl1. lia. }
-      pose proof (pk_sstep cb g Hcb Hsp Had xl Hokx Hnoexp Hmax a c qrw srw y (concat (pk_ress ops)) Hinv Hne (eq_sym Hs) Hlen Hf1) as Hinv'.
+      assert (Hlen : (length (pp_ex_swire (skipn (pk_offered xl (length qrw)) xl)) <= length (concat (pk_ress ops)))%nat).
+      { rewrite <- Hs, app_length in Hl1. lia. }
+      pose proof (pk_sstep2 cb g Hcb Hsp Had xl Hokx Hnoexp Hmax a c qrw srw y (concat (pk_ress ops)) Hinv Hne (eq_sym Hs) Hlen Hf1) as Hinv'.
       rewrite pk_run_cons_s. rewrite El in Hl.
-      apply (IH a m _ qrw _ Hinv' Hm Hd Hq eq_refl Hl Hf1r).
+      apply (IH a _ qrw _ Hinv' Hd Hq eq_refl Hl Hf1r).
 Qed.
 
 Theorem pk_pairing : forall ops, pk_data_ok ops = true -> concat (pk_reqs ops) = pp_ex_qwire xl -> concat (pk_ress ops) = pp_ex_swire xl ->
-  pk_legal xl ops = true -> pp_f1_free xl (pk_ress ops) = true ->
+  pk_blegal xl ops = true -> pp_f1_free xl (pk_ress ops) = true ->
   Forall2 (fun slot x => exists k fl, slot = Some (pp_tfin (pp_ex_of g k fl x))) (c_txs (fst (cp_run cb g connp_new (OpOpen :: ops)))) xl.
 Proof.
   intros ops Hd Hq Hs Hl Hf1.
@@ -140,8 +139,8 @@ Proof.
   assert (E0 : fst (cp_run cb g connp_new (OpOpen :: ops)) = fst (cp_run cb g c0 ops)).
   { cbn [cp_run cp_step]. unfold finish_call. fold c0. destruct (cp_run cb g c0 ops). reflexivity. }
   rewrite E0.
-  destruct (pk_run ops 0 0 c0 _ _ (pk_inv_open g xl) (le_n 0) Hd Hq Hs Hl Hf1) as (a' & Hinv).
-  apply (pk_inv_end g xl a' _ Hinv).
+  destruct (pk_run ops 0 c0 _ _ (or_introl (pk_inv_open g xl)) Hd Hq Hs Hl Hf1) as (a' & Hinv).
+  apply (pk_inv2_end g xl a' _ Hinv).
 Qed.
 End Run.
 
@@ -172,11 +171,11 @@ Theorem pk_legal_blegal xl ops : pk_legal xl ops = true -> pk_blegal xl ops = tr
 Proof. intros H. apply (pk_legal_blegal_from xl ops 0 _ _ H). lia. Qed.
 
 (* ================= C2: any legal interleaving ================= *)
-Theorem pp_pairing_interleaved : forall cb g (xl : list pp_xc) (ops : list cp_op),
+Theorem pp_pairing_interleaved_bytes : forall cb g (xl : list pp_xc) (ops : list cp_op),
   wr_all_ok cb -> g_allow_space_uri g = false -> g_tx_auto_destroy g = false -> (g_max_tx g = 0 \/ length xl < g_max_tx g)%nat ->
   forallb (pp_xc_ok g) xl = true -> forallb pk_noexp xl = true ->
   pk_data_ok ops = true -> concat (pk_reqs ops) = pp_ex_qwire xl -> concat (pk_ress ops) = pp_ex_swire xl ->
-  pk_legal xl ops = true -> pp_f1_free xl (pk_ress ops) = true ->
+  pk_blegal xl ops = true -> pp_f1_free xl (pk_ress ops) = true ->
   Forall2 (fun slot x => exists k fl, slot = Some (pp_tfin (pp_ex_of g k fl x))) (c_txs (fst (cp_run cb g connp_new (OpOpen :: ops)))) xl.
 Proof. intros cb g xl ops Hcb Hsp Had Hmax Hok Hne. apply (pk_pairing cb g Hcb Hsp Had xl Hok Hne Hmax). Qed.
 
@@ -190,6 +189,44 @@ Proof.
   exists (pp_tfin (pp_ex_of g k fl x)). split; [exact Es|]. apply pp_tfin_facts; [exact Hsp|exact H1|exact (Forall_inv Hpl)].
 Qed.
 
+Theorem pp_pairing_interleaved_bytes_reported : forall cb g (xl : list pp_xc) (ops : list cp_op),
+  wr_all_ok cb -> g_allow_space_uri g = false -> g_tx_auto_destroy g = false -> (g_max_tx g = 0 \/ length xl < g_max_tx g)%nat ->
+  forallb (pp_xc_ok g) xl = true -> forallb pk_noexp xl = true -> Forall pp_plain xl ->
+  pk_data_ok ops = true -> concat (pk_reqs ops) = pp_ex_qwire xl -> concat (pk_ress ops) = pp_ex_swire xl ->
+  pk_blegal xl ops = true -> pp_f1_free xl (pk_ress ops) = true ->
+  Forall2 (fun slot x => exists t, slot = Some t /\ wr_reported (sg_mask t) (xq x) /\ sr_reported t (xs x) (xbody x))
+          (c_txs (fst (cp_run cb g connp_new (OpOpen :: ops)))) xl.
+Proof.
+  intros cb g xl ops Hcb Hsp Had Hmax Hok Hne Hpl Hd Hq Hs Hl Hf1. apply (pk_reported g xl _ Hsp Hok Hpl).
+  apply (pp_pairing_interleaved_bytes cb g xl ops Hcb Hsp Had Hmax Hok Hne Hd Hq Hs Hl Hf1).
+Qed.
+
+(* the same for a shuffle of the two chunk lists *)
+Theorem pp_pairing_shuffled_bytes : forall cb g (xl : list pp_xc) (qchunks schunks : list bytes) (ops : list cp_op),
+  wr_all_ok cb -> g_allow_space_uri g = false -> g_tx_auto_destroy g = false -> (g_max_tx g = 0 \/ length xl < g_max_tx g)%nat ->
+  forallb (pp_xc_ok g) xl = true -> forallb pk_noexp xl = true -> Forall pp_plain xl ->
+  Forall (fun c => c <> []) qchunks -> concat qchunks = concat (map (fun x => wr_request_wire (xq x)) xl) ->
+  Forall (fun c => c <> []) schunks -> concat schunks = concat (map pp_xwire xl) -> pp_f1_free xl schunks = true ->
+  pk_shuffle (map OpReqData qchunks) (map OpResData schunks) ops -> pk_blegal xl ops = true ->
+  Forall2 (fun slot x => exists t, slot = Some t /\ wr_reported (sg_mask t) (xq x) /\ sr_reported t (xs x) (xbody x))
+          (c_txs (fst (cp_run cb g connp_new (OpOpen :: ops)))) xl.
+Proof.
+  intros cb g xl qch sch ops Hcb Hsp Had Hmax Hok Hne Hpl Fq Hq Fs Hs Hf1 Hsh Hl.
+  destruct (pk_shuffle_proj ops qch sch Hsh) as (A & B & C).
+  apply (pp_pairing_interleaved_bytes_reported cb g xl ops Hcb Hsp Had Hmax Hok Hne Hpl (C Fq Fs)); [rewrite A; exact Hq|rewrite B; exact Hs|exact Hl|rewrite B; exact Hf1].
+Qed.
+
+(* the statements with the stricter pk_legal (the form proved first; corollaries now) *)
+Theorem pp_pairing_interleaved : forall cb g (xl : list pp_xc) (ops : list cp_op),
+  wr_all_ok cb -> g_allow_space_uri g = false -> g_tx_auto_destroy g = false -> (g_max_tx g = 0 \/ length xl < g_max_tx g)%nat ->
+  forallb (pp_xc_ok g) xl = true -> forallb pk_noexp xl = true ->
+  pk_data_ok ops = true -> concat (pk_reqs ops) = pp_ex_qwire xl -> concat (pk_ress ops) = pp_ex_swire xl ->
+  pk_legal xl ops = true -> pp_f1_free xl (pk_ress ops) = true ->
+  Forall2 (fun slot x => exists k fl, slot = Some (pp_tfin (pp_ex_of g k fl x))) (c_txs (fst (cp_run cb g connp_new (OpOpen :: ops)))) xl.
+Proof.
+  intros cb g xl ops Hcb Hsp Had Hmax Hok Hne Hd Hq Hs Hl Hf1.
+  apply (pp_pairing_interleaved_bytes cb g xl ops Hcb Hsp Had Hmax Hok Hne Hd Hq Hs (pk_legal_blegal xl ops Hl) Hf1).
+Qed.
 Theorem pp_pairing_interleaved_reported : forall cb g (xl : list pp_xc) (ops : list cp_op),
   wr_all_ok cb -> g_allow_space_uri g = false -> g_tx_auto_destroy g = false -> (g_max_tx g = 0 \/ length xl < g_max_tx g)%nat ->
   forallb (pp_xc_ok g) xl = true -> forallb pk_noexp xl = true -> Forall pp_plain xl ->
@@ -198,11 +235,9 @@ Theorem pp_pairing_interleaved_reported : forall cb g (xl : list pp_xc) (ops : l
   Forall2 (fun slot x => exists t, slot = Some t /\ wr_reported (sg_mask t) (xq x) /\ sr_reported t (xs x) (xbody x))
           (c_txs (fst (cp_run cb g connp_new (OpOpen :: ops)))) xl.
 Proof.
-  intros cb g xl ops Hcb Hsp Had Hmax Hok Hne Hpl Hd Hq Hs Hl Hf1. apply (pk_reported g xl _ Hsp Hok Hpl).
-  apply (pp_pairing_interleaved cb g xl ops Hcb Hsp Had Hmax Hok Hne Hd Hq Hs Hl Hf1).
+  intros cb g xl ops Hcb Hsp Had Hmax Hok Hne Hpl Hd Hq Hs Hl Hf1.
+  apply (pp_pairing_interleaved_bytes_reported cb g xl ops Hcb Hsp Had Hmax Hok Hne Hpl Hd Hq Hs (pk_legal_blegal xl ops Hl) Hf1).
 Qed.
-
-(* the same for a shuffle of the two chunk lists *)
 Theorem pp_pairing_shuffled : forall cb g (xl : list pp_xc) (qchunks schunks : list bytes) (ops : list cp_op),
   wr_all_ok cb -> g_allow_space_uri g = false -> g_tx_auto_destroy g = false -> (g_max_tx g = 0 \/ length xl < g_max_tx g)%nat ->
   forallb (pp_xc_ok g) xl = true -> forallb pk_noexp xl = true -> Forall pp_plain xl ->
@@ -213,8 +248,7 @@ Theorem pp_pairing_shuffled : forall cb g (xl : list pp_xc) (qchunks schunks : l
           (c_txs (fst (cp_run cb g connp_new (OpOpen :: ops)))) xl.
 Proof.
   intros cb g xl qch sch ops Hcb Hsp Had Hmax Hok Hne Hpl Fq Hq Fs Hs Hf1 Hsh Hl.
-  destruct (pk_shuffle_proj ops qch sch Hsh) as (A & B & C).
-  apply (pp_pairing_interleaved_reported cb g xl ops Hcb Hsp Had Hmax Hok Hne Hpl (C Fq Fs)); [rewrite A; exact Hq|rewrite B; exact Hs|exact Hl|rewrite B; exact Hf1].
+  apply (pp_pairing_shuffled_bytes cb g xl qch sch ops Hcb Hsp Had Hmax Hok Hne Hpl Fq Hq Fs Hs Hf1 Hsh (pk_legal_blegal xl ops Hl)).
 Qed.
 
 (* ================= C1: strictly sequential delivery ================= *)
@@ -336,7 +370,7 @@ Fixpoint pk_bytes_eqb (a b : bytes) : bool := match a, b with [], [] => true | x
 (* every premise of the theorems on a history, and what the model makes of it *)
 Definition pk_premises (xl : list pp_xc) (ops : list cp_op) : bool :=
   pk_data_ok ops && pk_bytes_eqb (concat (pk_reqs ops)) (pp_ex_qwire xl) && pk_bytes_eqb (concat (pk_ress ops)) (pp_ex_swire xl) &&
-  pk_legal xl ops && pp_f1_free xl (pk_ress ops).
+  pk_blegal xl ops && pp_f1_free xl (pk_ress ops).
 Definition pk_same (ops : list cp_op) : bool := pp_fp_eqb (pp_fp (pk_irun ops)) pp_ex_ref.
 Definition pk_pipelined (ops : list cp_op) : bool := flag_has (c_conn_flags (pk_irun ops)) c_HTP_CONN_PIPELINED.
 
@@ -352,6 +386,13 @@ Definition pk_ex_ops1 : list cp_op := pk_ops1 pp_ex3.
 Definition pk_ex_ops2 : list cp_op :=
   [OpReqData (pk_q 0); OpResData (firstn 30 (pk_s 0)); OpReqData (pk_q 1 ++ firstn 20 (pk_q 2)); OpResData (skipn 30 (pk_s 0) ++ firstn 7 (pk_s 1));
    OpResData (skipn 7 (pk_s 1)); OpReqData (skipn 20 (pk_q 2)); OpResData (pk_s 2)].
+(* response 1 delivered while request 1 is in htp_connp_REQ_FINALIZE (five bytes of the next request line have been offered with it),
+   response 2 likewise *)
+Definition pk_ex_ops3 : list cp_op :=
+  [OpReqData (pk_q 0 ++ firstn 5 (pk_q 1)); OpResData (firstn 30 (pk_s 0)); OpResData (skipn 30 (pk_s 0)); OpReqData (skipn 5 (pk_q 1) ++ firstn 9 (pk_q 2));
+   OpResData (pk_s 1); OpReqData (skipn 9 (pk_q 2)); OpResData (pk_s 2)].
+Example pk_ex_finalize : pk_premises pp_ex3 pk_ex_ops3 = true /\ pk_same pk_ex_ops3 = true /\ pk_legal pp_ex3 pk_ex_ops3 = false.
+Proof. repeat split; vm_compute; reflexivity. Qed.
 Example pk_ex_interleaved :
   pk_premises pp_ex3 pk_ex_ops1 = true /\ pk_same pk_ex_ops1 = true /\ pk_premises pp_ex3 pk_ex_ops2 = true /\ pk_same pk_ex_ops2 = true /\
   forallb pk_noexp pp_ex3 = true /\ forallb pk_noexp pp_ex3u = true /\ pk_premises pp_ex3u (pk_ops1 pp_ex3u) = true.
@@ -363,8 +404,8 @@ Example pk_ex_interleaved_thm :
 Proof.
   destruct pp_ex3_premises as (O3 & O3u & Mx & Ad & _). destruct sg_ex_premises as (_ & _ & Hcb & _). destruct pk_ex_interleaved as (_ & _ & _ & _ & N3 & N3u & _).
   split.
-  - apply (pp_pairing_interleaved sg_ex_ok (sg_ex_cfg 18000) pp_ex3 pk_ex_ops1 Hcb eq_refl Ad Mx O3 N3); vm_compute; reflexivity.
-  - apply (pp_pairing_interleaved_reported sg_ex_ok (sg_ex_cfg 18000) pp_ex3u (pk_ops1 pp_ex3u) Hcb eq_refl Ad Mx O3u N3u pp_ex3u_plain); vm_compute; reflexivity.
+  - apply (pp_pairing_interleaved_bytes sg_ex_ok (sg_ex_cfg 18000) pp_ex3 pk_ex_ops1 Hcb eq_refl Ad Mx O3 N3); vm_compute; reflexivity.
+  - apply (pp_pairing_interleaved_bytes_reported sg_ex_ok (sg_ex_cfg 18000) pp_ex3u (pk_ops1 pp_ex3u) Hcb eq_refl Ad Mx O3u N3u pp_ex3u_plain); vm_compute; reflexivity.
 Qed.
 
 (* legality cannot be dropped: response 1 offered before request 1 gives four transactions, none of them the expected one *)
@@ -373,9 +414,9 @@ Example pk_ex_illegal : pk_legal pp_ex3 pk_ex_bad = false /\ pk_blegal pp_ex3 pk
 Proof. repeat split; vm_compute; reflexivity. Qed.
 
 (* the statement evaluated before it was proved.  The request wire (99 bytes) cut at a and b (all 4753 pairs); after each piece
-   every response whose request has been offered completely, byte by byte.  All 4753 histories are byte-legal and give the
-   reference transactions; 2113 of them are legal in the sense of pk_legal: the others offer response i while request i is in
-   htp_connp_REQ_FINALIZE with a part of the next request line buffered (see the note at the end of the file) *)
+   every response whose request has been offered completely, byte by byte.  All 4753 histories satisfy the premises and give the
+   reference transactions; 2113 of them are legal in the stricter sense of pk_legal: the others offer response i while request i
+   is in htp_connp_REQ_FINALIZE with a part of the next request line buffered *)
 Definition pk_sws : list bytes := map pp_xwire pp_ex3.
 Definition pk_off (a : nat) : nat := pk_offered pp_ex3 (length pp_ex_qw - a).
 Definition pk_inter2 (a b : nat) : list cp_op :=
@@ -391,7 +432,7 @@ Definition pk_two_cuts_eval : bool * nat :=
                             if pk_legal pp_ex3 ops then S (snd acc) else snd acc)) pk_pairs (true, 0%nat).
 Example pk_ex_two_cuts : length pk_pairs = 4753%nat /\ pk_two_cuts_eval = (true, 2113%nat).
 Proof. split; [vm_compute; reflexivity|vm_cast_no_check (eq_refl (true, 2113%nat))]. Qed.
-(* one cut: the cuts at which pk_legal refuses the (byte-legal) history are those inside the request line that follows a complete request *)
+(* one cut: the cuts at which the stricter pk_legal refuses the (legal) history are those inside the request line that follows a complete request *)
 Definition pk_inter1 (a : nat) : list cp_op :=
   let k := pk_off a in OpReqData (firstn a pp_ex_qw) :: map (fun y => OpResData [y]) (concat (firstn k pk_sws)) ++ OpReqData (skipn a pp_ex_qw) :: map (fun y => OpResData [y]) (concat (skipn k pk_sws)).
 Example pk_ex_one_cut :
@@ -410,32 +451,34 @@ Proof. repeat split; vm_compute; reflexivity. Qed.
 
 (* ================= FINAL THEOREMS FOR RE-EXPORT (Properties_C04.v), Stage C =================
    xl : list pp_xc = the exchanges (PPairThm.pp_xc);  ops : list cp_op = the history after OpOpen;  c = fst (cp_run cb g connp_new (OpOpen :: ops))
-   C2  pp_pairing_interleaved           Forall2 (fun slot x => exists k fl, slot = Some (pp_tfin (pp_ex_of g k fl x))) (c_txs c) xl     (ALL fields of every slot)
-       pp_pairing_interleaved_reported  Forall2 (fun slot x => exists t, slot = Some t /\ wr_reported (sg_mask t) (xq x) /\ sr_reported t (xs x) (xbody x)) (c_txs c) xl
-       pp_pairing_shuffled              the same for pk_shuffle (map OpReqData qchunks) (map OpResData schunks) ops  (orders within each side kept)
+   C2  pp_pairing_interleaved_bytes           Forall2 (fun slot x => exists k fl, slot = Some (pp_tfin (pp_ex_of g k fl x))) (c_txs c) xl     (ALL fields of every slot)
+       pp_pairing_interleaved_bytes_reported  Forall2 (fun slot x => exists t, slot = Some t /\ wr_reported (sg_mask t) (xq x) /\ sr_reported t (xs x) (xbody x)) (c_txs c) xl
+       pp_pairing_shuffled_bytes              the same for pk_shuffle (map OpReqData qchunks) (map OpResData schunks) ops  (orders within each side kept)
+       (pp_pairing_interleaved / _reported / pp_pairing_shuffled: the same three with the stricter pk_legal in place of pk_blegal -- corollaries, kept for Properties_C04.v)
    C1  pp_pairing_sequential            ops = pk_seq_ops chs: request i in any chunking, then response i in any chunking, i = 0, 1, ...  (no legality premise:
-                                        pk_legal_seq proves it)
+                                        pk_legal_seq and pk_legal_blegal prove it)
    premises: those of Stage B (PPairThmB.pp_pairing_chunked_reported): wr_all_ok cb, g_allow_space_uri g = false, g_tx_auto_destroy g = false,
                g_max_tx g = 0 \/ length xl < g_max_tx g, forallb (pp_xc_ok g) xl = true, [_reported: Forall pp_plain xl],
                pp_f1_free xl (pk_ress ops) = true  (F1, on the response chunks of the history)
              pk_data_ok ops = true               only OpReqData / OpResData, no empty chunk
              concat (pk_reqs ops) = pp_ex_qwire xl, concat (pk_ress ops) = pp_ex_swire xl      (the request / response chunks of ops, in order)
-             pk_legal xl ops = true              computable; a response chunk lies within the responses to the requests that are PARSER-COMPLETE
-                                                 (PPairCa.pk_ready: a request chunk ended exactly with request i, or the LF of the request line of
-                                                 request i+1 has been offered).  pk_legal_blegal: pk_legal implies pk_blegal, byte-legality
-                                                 (no byte of response i before the last byte of request i).
+             pk_blegal xl ops = true             computable: no byte of response i is offered before the last byte of request i has been offered
+                                                 (a response chunk lies within the responses to the first PPairCa.pk_offered xl qn requests, qn = the
+                                                 number of request bytes still to come)
              forallb pk_noexp xl = true          NEW: no request carries an Expect field (htp_connp_RES_BODY_DETERMINE looks for one when the status
                                                  is 4xx and then touches the request side); an artefact of the proof, not a finding
-   NOT covered (open): byte-legal histories that offer response i while request i is still in htp_connp_REQ_FINALIZE with a part of the next
-             request line buffered (a request chunk that ends inside the request line following a complete request; pk_ex_one_cut, pk_ex_two_cuts:
-             2640 of the 4753 two-cut histories).  There the response runs on a transaction whose request is not yet marked complete and
-             in_tx = out_tx; the model gives the same transactions on all of them (evaluated, not proved).
+   The histories in which response i is parsed while request i is still in htp_connp_REQ_FINALIZE (all of its bytes offered, a part of the
+             next request line buffered) are covered (PPairCv.pk_gap; pk_ex_finalize, pk_ex_two_cuts): the response side then works on a
+             transaction whose request is not marked complete, in_tx = out_tx, and htp_tx_finalize reports the transaction complete from
+             htp_tx_state_request_complete; marking the request complete commutes with response processing (PPairCt.v).
+   pk_legal (stricter: response i only after request i is parser-complete) implies pk_blegal (pk_legal_blegal); it serves the sequential histories.
    HTP_CONN_PIPELINED plays no part (the slots are stated up to k, fl): it is set by htp_connp_tx_create iff a transaction is created while
              an earlier one has not seen the first byte of its response (pk_ex_sequential: evaluated).
-   also: PPairCa.pk_qstep / pk_sstep (one call of either side on the joint invariant pk_inv), PPairC7.pc_qstep, PPairC8.qp_pstep,
+   also: PPairCv.pk_qstep2 / pk_sstep2 (one call of either side on the joint invariant pk_inv2), PPairC7.pc_qstep, PPairCv.gc_qstep, PPairC8.qp_pstep,
          PPairCq.pq_req_data_S (htp_connp_req_data commutes with overwriting the response side), PPairC7.fk_req_data_keep *)
-Print Assumptions pp_pairing_interleaved.
+Print Assumptions pp_pairing_interleaved_bytes.
+Print Assumptions pp_pairing_interleaved_bytes_reported.
+Print Assumptions pp_pairing_shuffled_bytes.
 Print Assumptions pp_pairing_interleaved_reported.
-Print Assumptions pp_pairing_shuffled.
 Print Assumptions pp_pairing_sequential.
 Print Assumptions pk_legal_blegal.
